@@ -87,16 +87,16 @@ def gen_web(seed, tier, focus="C41"):
     nops = ch.randint(W, "nops", 6, 14 if tier == "quick" else 30)
     ops = []
     for i in range(nops):
-        kind = ch.weighted(W, ("kind", i), [("put-file", 3), ("put-uri", 1.5), ("put-mkdir", 1.5), ("delete", 2.5), ("post-mod", 6), ("post-read", 2), ("get", 4),
+        kind = ch.weighted(W, ("kind", i), [("put-file", 3), ("put-uri", 2.5), ("put-mkdir", 1.5), ("delete", 2.5), ("post-mod", 6), ("post-read", 2), ("get", 4),
                                             ("put-mutable-offset", 1.2), ("post-file-upload", 1.2), ("private", 0.6)])
         op = {"kind": kind,
               "start": ch.randrange(W, ("start", i), 64),            # which node the URL cap names
-              "flavour": ch.weighted(W, ("flav", i), [("ro", 5), ("rw", 3), ("verify", 1.5)]),
+              "flavour": ch.weighted(W, ("flav", i), [("ro", 5), ("rw", 4), ("verify", 1.5)]),
               "path": [ch.randrange(W, ("p", i, j), 64) for j in range(ch.weighted(W, ("plen", i), [(0, 3), (1, 4), (2, 2.5), (3, 1)]))],
               "newname": ch.chance(W, ("new", i), 0.35),
               "x": ch.randrange(W, ("x", i), 1 << 30)}
         if kind == "post-mod":
-            op["t"] = ch.pick(W, ("t", i), MODIFYING_POST)
+            op["t"] = ch.pick(W, ("t", i), MODIFYING_POST + ("uri", "uri", "set_children", "set_children", "set-children"))
             op["bodycap"] = ch.weighted(W, ("bc", i), [("ro", 4), ("rw", 2), ("imm", 2)])
             op["replace"] = ch.pick(W, ("rep", i), ["true", "true", "false", "only-files"])
             op["fmt"] = ch.pick(W, ("fmt", i), [None, None, "sdmf", "mdmf", "chk"])
@@ -301,6 +301,8 @@ def exec_web(case):
             cap = start[flav]
             # walk the path through what the model knows, to choose names that exist
             segs, cur = [], start
+            trail = [start]
+            link_expect = []        # (parent record, child name, write cap the request gives for that link or None)
             for j, pick in enumerate(path):
                 names = listing(cur) if cur is not None and cur["kind"] == "dir" else []
                 last = (j == len(path) - 1)
@@ -317,6 +319,7 @@ def exec_web(case):
                             if n["ro"] == ch_.get_readonly_uri():
                                 nxt = n
                 cur = nxt
+                trail.append(cur)
             uri = b"/uri/" + cap + b"".join(b"/" + s.encode("utf-8") for s in segs)
             q = []
             body, headers = b"", {}
@@ -332,7 +335,11 @@ def exec_web(case):
             elif kind == "put-uri":
                 method = b"PUT"
                 q += ["t=uri", "replace=" + op["replace"]]
+                if segs and cur is not None and cur.get("rw") and op["x"] % 3 == 1:
+                    bodycap = cur["ro"]          # diminish an existing link: re-link the same object by its read-only cap
                 body = bodycap
+                if segs and len(trail) >= 2 and trail[-2] is not None and trail[-2]["kind"] == "dir":
+                    link_expect.append((trail[-2], segs[-1], (bodycap if bodycap.startswith((b"URI:SSK:", b"URI:DIR2:", b"URI:MDMF:", b"URI:DIR2-MDMF:")) else None)))
             elif kind == "put-mkdir":
                 method = b"PUT"
                 q.append("t=mkdir")
@@ -379,7 +386,13 @@ def exec_web(case):
                     body = b"\r\n".join(parts)
                     headers["content-type"] = b"multipart/form-data; boundary=" + bnd
                 elif t == "uri":
+                    if not op["newname"] and cur is not None and cur["kind"] == "dir" and exist in names and op["x"] % 3 == 1:
+                        stx, chx = run(c.create_node_from_uri(cur["rw"] or cur["ro"]).get(exist))
+                        if stx == "ok" and chx.get_write_uri() is not None and chx.get_readonly_uri() is not None:
+                            bodycap = chx.get_readonly_uri()      # diminish an existing link
                     q += ["name=" + (fresh if op["newname"] else exist), "uri=" + bodycap.decode("ascii")]
+                    if cur is not None and cur["kind"] == "dir":
+                        link_expect.append((cur, (fresh if op["newname"] else exist), (bodycap if bodycap.startswith((b"URI:SSK:", b"URI:DIR2:", b"URI:MDMF:", b"URI:DIR2-MDMF:")) else None)))
                 elif t in ("unlink", "delete"):
                     q.append("name=" + exist)
                 elif t == "rename":
@@ -390,7 +403,17 @@ def exec_web(case):
                 else:
                     kidcap = bodycap
                     key = "rw_uri" if kidcap.startswith((b"URI:SSK:", b"URI:DIR2:", b"URI:MDMF:")) else "ro_uri"
-                    body = json.dumps({(fresh if op["newname"] else exist): ["filenode", {key: kidcap.decode("ascii")}]}).encode()
+                    kids = {(fresh if op["newname"] else exist): ["filenode", {key: kidcap.decode("ascii")}]}
+                    if cur is not None and cur["kind"] == "dir":
+                        link_expect.append((cur, (fresh if op["newname"] else exist), kidcap if key == "rw_uri" else None))
+                    if op["x"] % 3 == 0:
+                        # a second child given by its read-only cap only, after a child given by a write cap (what re-posting
+                        # a t=json listing of a mixed-authority directory looks like)
+                        second = nodes[(op["x"] // 3) % len(nodes)]
+                        kids[u"second-%d" % (op["x"] % 4)] = [("dirnode" if second["kind"] == "dir" else "filenode"), {"ro_uri": second["ro"].decode("ascii")}]
+                        if cur is not None and cur["kind"] == "dir":
+                            link_expect.append((cur, u"second-%d" % (op["x"] % 4), None))
+                    body = json.dumps(kids).encode()
             elif kind == "put-mutable-offset":
                 method = b"PUT"
                 q.append("offset=%d" % op["offset"])
@@ -405,7 +428,7 @@ def exec_web(case):
             if q:
                 from urllib.parse import quote
                 uri += b"?" + "&".join(k_ + "=" + quote(v, safe=":") for k_, _, v in (x.partition("=") for x in q)).encode("utf-8")
-            return method, uri, body, headers, {"flavour": flav, "start": start["id"], "segs": segs}
+            return method, uri, body, headers, {"flavour": flav, "start": start["id"], "segs": segs, "link_expect": link_expect}
 
         def would_modify(op):
             k = op["kind"]
@@ -471,6 +494,19 @@ def exec_web(case):
                     # 2xx although nothing could be changed
                     bad("not-refused", "%s carries no write cap, would modify a file or directory, and was answered %s instead of being refused" % (where, code),
                         sig="C41.not-refused.%s" % op["kind"])
+            if code is not None and 200 <= code < 300 and not overlapped:
+                for (prec, lname, given_rw) in facts.get("link_expect", []):
+                    stl, got_ = run(c.create_node_from_uri(prec["rw"] or prec["ro"]).get_child_and_metadata(lname), 400_000)
+                    if stl != "ok":
+                        continue
+                    stored_rw = got_[0].get_write_uri()
+                    probe("link-authority-checked")
+                    if stored_rw is not None and stored_rw != given_rw:
+                        bad("link-exceeds-given-cap",
+                            "%s (status %s) set child %r of directory %s from %s, but the stored link carries the write cap of %s" % (
+                                where, code, lname, prec["name"], "a read-only cap" if given_rw is None else "another write cap",
+                                all_rw[stored_rw]["name"] if stored_rw in all_rw else "an object"),
+                            sig="C41.link-exceeds-given-cap.%s.%s" % (op["kind"], op.get("t", "")))
             # leakage: write caps of existing nodes in the response that the presented caps do not give
             leaked = set()
             for m in RW_CAP.findall(head + b"\n" + rbody):
